@@ -6,6 +6,7 @@
 import InjModel.Generated.Fns
 import InjModel.Lemmas.Rt
 import InjModel.Model.SigText
+import InjModel.Lemmas.SigText
 open Inj Inj.Rt Inj.Sig
 
 namespace Inj.Tie
@@ -136,6 +137,16 @@ theorem T_sig_returns_bool (mode : Mode) (s : List Char) (hs : strLen s < 922337
     rw [hd', Res.bind_ok]
     cases afterCloseC 1 post <;> rfl
 
+/-- **C10's gate clause on the code as translated**: for every function-pointer type, spelled with
+    any names that meet `NamesOK`, in both build profiles, the translated `signature_returns_bool`
+    returns (never panics) `true` exactly when the return type is `bool`. -/
+theorem T_c10_gate_translated (mode : Mode) (nm : Names) (ok : NamesOK nm) (f : FnTy)
+    (hs : strLen (spellC nm (renderFn f)) < 9223372036854775808) :
+    ∃ b, GenIf.signature_returns_bool mode (spellC nm (renderFn f)) = Res.ok b ∧
+      (b = true ↔ f.ret = Ty.prim boolId) :=
+  ⟨_, T_sig_returns_bool mode _ hs, returnsBoolText_renderFn nm ok f⟩
+
 end Inj.Tie
 
 #print axioms Inj.Tie.T_sig_returns_bool
+#print axioms Inj.Tie.T_c10_gate_translated
